@@ -1,18 +1,25 @@
 use std::ops::Range;
 
+/// Returns true if the character ends a line, given the character that follows.
+/// Line endings are '\n', '\r\n' and '\r' as per the LSP specification.
+fn is_line_end(c: char, next: Option<&char>) -> bool {
+    c == '\n' || (c == '\r' && next != Some(&'\n'))
+}
+
 /// Returns the UTF-8 index for the given UTF-16 text position.
 pub(crate) fn position_to_utf8(text: &str, position: lsp_types::Position) -> usize {
     let mut line = 0;
     let mut character = 0;
     let mut utf8_index = 0;
 
-    for c in text.chars() {
+    let mut chars = text.chars().peekable();
+    while let Some(c) = chars.next() {
         if line == position.line {
             if character == position.character || c == '\n' || c == '\r' {
                 break;
             }
             character += c.len_utf16() as u32;
-        } else if c == '\n' {
+        } else if is_line_end(c, chars.peek()) {
             line += 1;
         }
         utf8_index += c.len_utf8();
@@ -27,11 +34,12 @@ pub(crate) fn utf8_to_position(text: &str, index: usize) -> lsp_types::Position 
     let mut character = 0;
     let mut utf8_index = 0;
 
-    for c in text.chars() {
+    let mut chars = text.chars().peekable();
+    while let Some(c) = chars.next() {
         if utf8_index >= index {
             break;
         }
-        if c == '\n' {
+        if is_line_end(c, chars.peek()) {
             line += 1;
             character = 0;
         } else {
